@@ -28,6 +28,8 @@ TIERS = {
 
 def b1_runs(ids4, p, w):
     consts = dict(Thin=0, LinePer=0, TwinPer=0, PairPer=p['pairs'], TriplePer=p['triples'], OverlapPer=p['overlaps'])
+    if ids4 is None:       # all 15 625 meshes: fewer draws per mesh (the replay below uses the full number)
+        consts.update(PairPer=6, TriplePer=1, OverlapPer=2)
 
     def small():
         return ('MC_Routing 3 sites: all 125 meshes, ALL pairs of requests (<= 1 ROADM include each), triples, overlaps',
@@ -36,7 +38,8 @@ def b1_runs(ids4, p, w):
     def four():
         if ids4 is None:
             return ('MC_Routing 4 sites: all 15625 meshes, seeded pairs/triples/overlapping pairs',
-                    tlc.run('MC_Routing', cfg_text=ru.mc_cfg(**consts), timeout=6000, tag='c12-mc4', workers=w))
+                    tlc.run('MC_Routing', cfg_text=ru.mc_cfg(sanity=False, **consts), timeout=6000, tag='c12-mc4',
+                            workers=w))
         return (f'MC_Routing 4 sites: {len(ids4)} sampled meshes, seeded pairs/triples/overlapping pairs',
                 tlc.run('MC_Routing', cfg_text=ru.mc_cfg(UseSample=True, **consts), workers=w,
                         extra_modules={'RoutingSample': ru.sample_module(ids4)}, timeout=1800, tag='c12-mc4'))
